@@ -336,6 +336,7 @@ Theorem C18_close_overwrite_loses_copy_error :
   let r := mkResp true 200 None None false false ENone in
   handle_download_close_overwrites cfg b r = None /\ handle_download cfg b r = Some 7.
 Proof. exact close_overwrite_loses_copy_error. Qed.
+Print Assumptions C18_close_overwrite_loses_copy_error.
 
 (* ---- the request-level error target's outcome stands for EVERY outcome of the client-level type ---- *)
 Theorem C18_request_target_failure_stands : forall tg b r x u,
@@ -360,6 +361,7 @@ Theorem C18_flattened_branch_overwrites_failure :
   let r := mkResp true 500 None None true false ENone in
   parse_error_branch_flattened tg b r = (set_error ECommon r, None) /\ parse_response_body tg b r = (r, Some 7).
 Proof. exact flattened_branch_overwrites_failure. Qed.
+Print Assumptions C18_flattened_branch_overwrites_failure.
 
 (* ---- a failing body read surfaces for EVERY body transformer (installed or not, failing or not) ---- *)
 Theorem C18_read_error_kept_for_every_transformer : forall b r e tf,
@@ -392,6 +394,7 @@ Theorem C18_unguarded_transformer_loses_read_error :
   let r := mkResp true 200 None None false false ENone in
   to_bytes_unguarded b r = (set_cached true r, None) /\ to_bytes b r = (set_cached true (set_err (Some 7) r), Some 7).
 Proof. exact unguarded_transformer_loses_read_error. Qed.
+Print Assumptions C18_unguarded_transformer_loses_read_error.
 
 (* ---- any state checker: the verdict of a custom resultStateCheckFunc is an arbitrary value ---- *)
 Theorem C18_custom_checker_decides : forall r s, r_present r = true -> r_chk r = Some s -> result_state r = s.
@@ -479,15 +482,18 @@ Theorem C18_pinned_digest_refuted :
   let '(r, _, _) := digest_mw Pinned digest_witness_cfg digest_witness digest_witness_resp in
   r_status r = 200 /\ result_state r = SuccessState /\ r_result r = false /\ r_error r = EReq.
 Proof. exact digest_pinned_refuted. Qed.
+Print Assumptions C18_pinned_digest_refuted.
 
 Theorem C18_fixed_digest_rebinds :
   let '(r, e, _) := digest_mw Fixed digest_witness_cfg digest_witness digest_witness_resp in
   r_status r = 200 /\ result_state r = SuccessState /\ r_result r = true /\ r_error r = ENone /\ e = None.
 Proof. exact digest_fixed_rebinds. Qed.
+Print Assumptions C18_fixed_digest_rebinds.
 
 Theorem C18_pinned_nil_response_dereferenced :
   do_first_pinned Fixed retry_cfg nil_wrapper_attempt = PNilDeref.
 Proof. exact do_pinned_nil_deref. Qed.
+Print Assumptions C18_pinned_nil_response_dereferenced.
 
 (* non-vacuity: concrete non-trivial programs *)
 Example C18_nonvacuous :
